@@ -162,6 +162,13 @@ Proof. intros l l' N1 N2 H. apply sort_permutation. apply NoDup_Permutation; ass
 Definition is_err (r : fres) : bool := match r with FErr => true | _ => false end.
 Definition is_wrote (r : fres) : bool := match r with FWrote _ => true | _ => false end.
 
+Lemma existsb_ext_in : forall (A : Type) (f g : A -> bool) (l : list A),
+  (forall x, In x l -> f x = g x) -> existsb f l = existsb g l.
+Proof.
+  induction l as [|x r IH]; intro H; cbn; [reflexivity|].
+  rewrite H by (left; reflexivity). rewrite IH; [reflexivity|]. intros y Hy. apply H. right. assumption.
+Qed.
+
 Section Loop.
 Variables (um : N) (out : list (bytes * onode)).
 
@@ -221,22 +228,62 @@ Proof.
   change k with (fst (k, w)). apply in_map. assumption.
 Qed.
 
+(* what os.Remove cannot take away *)
+Definition stuck (o : option node) : option node :=
+  match o with Some v => if removable v then None else Some v | None => None end.
+
+Lemma efs_cases : forall cur ds,
+  match efs um out cur ds with
+  | FSame => in_state out cur ds = true /\ exists v, cur = Some v
+  | FWrote v => v = written um ds /\ in_state out cur ds = false /\ stuck (Some v) = stuck cur
+  | FErr => True
+  end.
+Proof.
+  intros cur ds. unfold efs, in_state.
+  destruct (failat ds =? 1); [exact I|].
+  destruct ds as [c m f|t f|f]; [| |exact I]; cbn [failat].
+  - destruct (f =? 2); [exact I|].
+    destruct cur as [[c' m'|t'|e]|]; cbn [node_same].
+    + destruct (same_reg c m c' m'); [split; [reflexivity | eexists; reflexivity]|].
+      destruct (f =? 3); [exact I|]. repeat split.
+    + destruct (lookup out t') as [[c' m'|]|]; [| exact I |].
+      * destruct (same_reg c m c' m'); [split; [reflexivity | eexists; reflexivity]|].
+        destruct (f =? 3); [exact I|]. repeat split.
+      * destruct (f =? 3); [exact I|]. repeat split.
+    + exact I.
+    + destruct (f =? 3); [exact I|]. repeat split.
+  - destruct (f =? 2); [exact I|].
+    destruct cur as [[c' m'|t'|e]|]; cbn [node_same].
+    + destruct (f =? 3); [exact I|]. repeat split.
+    + destruct (beq t t'); [split; [reflexivity | eexists; reflexivity]|].
+      destruct (f =? 3); [exact I|]. repeat split.
+    + destruct (f =? 3); exact I.
+    + destruct (f =? 3); [exact I|]. repeat split.
+Qed.
+
 Lemma write_loop_fail : forall content d ch,
   NoDup (names content) -> wl_fail d content = true ->
   exists d', write_loop um out d content ch = (d', [], true)
              /\ (forall n, ~ In n (names content) -> lookup d' n = lookup d n)
+             /\ (forall n, stuck (lookup d' n) = stuck (lookup d n))
+             /\ (forall n, lookup d n <> None -> lookup d' n <> None)
              /\ (NoDup (names d) -> NoDup (names d')).
 Proof.
   induction content as [|[n ds] r IH]; intros d ch ND WF; cbn in WF; [discriminate|].
   inversion ND as [|? ? Hn ND']; subst.
-  cbn [write_loop]. destruct (efs um out (lookup d n) ds) eqn:E; cbn in WF.
-  - destruct (IH d ch ND' WF) as [d' [H1 [H2 H3]]]. exists d'. split; [exact H1|]. split; [|exact H3].
+  cbn [write_loop]. pose proof (efs_cases (lookup d n) ds) as EC.
+  destruct (efs um out (lookup d n) ds) eqn:E; cbn in WF.
+  - destruct (IH d ch ND' WF) as [d' [H1 [H2 [H3 [H4 H5]]]]]. exists d'. split; [exact H1|]. split; [|tauto].
     intros x Hx. apply H2. intro H. apply Hx. right. assumption.
   - assert (W : wl_fail (set_node d n n0) r = true) by (rewrite wl_fail_set_other; assumption).
-    destruct (IH (set_node d n n0) (ch ++ [n]) ND' W) as [d' [H1 [H2 H3]]]. exists d'. split; [exact H1|]. split.
+    destruct EC as [_ [_ ST]].
+    destruct (IH (set_node d n n0) (ch ++ [n]) ND' W) as [d' [H1 [H2 [H3 [H4 H5]]]]]. exists d'. split; [exact H1|].
+    split; [|split; [|split]].
     + intros x Hx. rewrite H2; [|intro H; apply Hx; right; assumption].
       rewrite lookup_set_node. destruct (beq n x) eqn:B; [|reflexivity]. apply beq_true_iff in B. subst. exfalso. apply Hx. left. reflexivity.
-    + intro NDd. apply H3. apply NoDup_set_node. assumption.
+    + intro x. rewrite H3, lookup_set_node. destruct (beq n x) eqn:B; [|reflexivity]. apply beq_true_iff in B. subst. exact ST.
+    + intros x Hx. apply H4. rewrite lookup_set_node. destruct (beq n x); [discriminate | assumption].
+    + intro NDd. apply H5. apply NoDup_set_node. assumption.
   - exists d. repeat split; auto.
 Qed.
 End Loop.
@@ -264,10 +311,10 @@ Lemma erase_loop_spec : forall mt keep d, NoDup (names d) ->
   /\ NoDup (snd3 r).
 Proof.
   induction d as [|[k v] r IH]; intros ND; cbn.
-  - unfold fst3, snd3, thd3; cbn. repeat split; try tauto; try discriminate.
+  - unfold fst3, snd3, thd3; cbn. split; [|split; [|split]].
     + intro n. destruct (mt n && negb (mem_name n keep)); reflexivity.
-    + intros [_ [_ [v [H _]]]]. discriminate.
-    + intros [n [v [_ [_ [H _]]]]]. discriminate.
+    + intro n. split; [tauto|]. intros [_ [_ [v [H _]]]]. discriminate.
+    + split; [discriminate|]. intros [n [v [_ [_ [H _]]]]]. discriminate.
     + constructor.
   - inversion ND as [|? ? Hk ND']; subst. specialize (IH ND'). cbn in IH.
     destruct (erase_loop mt keep r) as [[r' rm] e] eqn:E. unfold fst3, snd3, thd3 in *. cbn in IH.
@@ -308,4 +355,295 @@ Proof.
         -- apply beq_true_iff in B. subst n. rewrite LK in H. destruct H as [_ [_ [H _]]]. discriminate.
         -- apply beq_true_iff in B. subst n. destruct H as [H1 [H2 _]]. rewrite H1, H2 in C. discriminate.
       * assumption.
+Qed.
+
+(* ------------------------------------------------------------------ main theorems *)
+Lemma lookup_Some_names : forall (A : Type) (d : list (bytes * A)) n v, lookup d n = Some v -> In n (names d).
+Proof.
+  intros A d n v H. destruct (in_dec (list_eq_dec N.eq_dec) n (names d)) as [I | I]; [assumption|].
+  apply lookup_None in I. congruence.
+Qed.
+Lemma NoDup_names_filter : forall (A : Type) (f : bytes * A -> bool) (l : list (bytes * A)),
+  NoDup (names l) -> NoDup (names (filter f l)).
+Proof.
+  induction l as [|[k v] r IH]; intro ND; cbn; [constructor|]. inversion ND as [|? ? Hk ND']; subst.
+  destruct (f (k, v)); cbn; [|apply IH; assumption]. constructor; [|apply IH; assumption].
+  intro H. apply Hk. apply in_map_iff in H. destruct H as [[k' v'] [E I]]. apply filter_In in I. destruct I as [I _].
+  cbn in E. subst. change k with (fst (k, v')). apply in_map. assumption.
+Qed.
+Lemma mem_name_false : forall n l, mem_name n l = false <-> ~ In n l.
+Proof. intros n l. rewrite <- mem_name_In. destruct (mem_name n l); split; congruence. Qed.
+
+Section Main.
+Variables (mt : bytes -> bool) (um : N) (out : list (bytes * onode)).
+
+Definition valid_input (content : list (bytes * dstate)) : bool := forallb (fun n => valid_base n && mt n) (names content).
+
+Lemma valid_input_mt : forall content n, valid_input content = true -> In n (names content) -> mt n = true.
+Proof.
+  intros content n V I. unfold valid_input in V. rewrite forallb_forall in V. specialize (V n I).
+  apply andb_true_iff in V. tauto.
+Qed.
+
+Definition eds := ensure_dir_state mt um out.
+
+(* the whole function, in closed form, when no entry fails *)
+Lemma eds_ok_form : forall d content, NoDup (names d) -> NoDup (names content) ->
+  valid_input content = true -> wl_fail um out d content = false ->
+  exists d1, (forall n, lookup d1 n = after_write um out d content n) /\ NoDup (names d1) /\
+    eds d content = mkResult (fst3 (erase_loop mt (names content) d1)) (sort (wrote_names um out d content))
+                             (sort (snd3 (erase_loop mt (names content) d1))) (thd3 (erase_loop mt (names content) d1)) false.
+Proof.
+  intros d content NDd NDc V WF. destruct (write_loop_ok um out content d [] NDc WF) as [d1 [H1 [H2 H3]]].
+  exists d1. split; [exact H2|]. split; [auto|]. unfold eds, ensure_dir_state. fold (valid_input content). rewrite V. cbn [negb].
+  rewrite H1. cbn [app]. destruct (erase_loop mt (names content) d1) as [[a b] c]. reflexivity.
+Qed.
+
+Lemma eds_fail_form : forall d content, NoDup (names d) -> NoDup (names content) ->
+  valid_input content = true -> wl_fail um out d content = true ->
+  exists d1, (forall n, ~ In n (names content) -> lookup d1 n = lookup d n) /\
+    (forall n, stuck (lookup d1 n) = stuck (lookup d n)) /\ (forall n, lookup d n <> None -> lookup d1 n <> None) /\
+    NoDup (names d1) /\
+    eds d content = mkResult (fst3 (erase_loop mt [] d1)) [] (sort (snd3 (erase_loop mt [] d1))) true true.
+Proof.
+  intros d content NDd NDc V WF. destruct (write_loop_fail um out content d [] NDc WF) as [d1 [H1 [H2 [H3 [H4 H5]]]]].
+  exists d1. repeat (split; [auto|]). unfold eds, ensure_dir_state. fold (valid_input content). rewrite V. cbn [negb].
+  rewrite H1. destruct (erase_loop mt [] d1) as [[a b] c]. reflexivity.
+Qed.
+
+Lemma eds_wfail_iff : forall d content, NoDup (names d) -> NoDup (names content) ->
+  (r_wfail (eds d content) = true <-> valid_input content = true /\ wl_fail um out d content = true).
+Proof.
+  intros d content NDd NDc. destruct (valid_input content) eqn:V.
+  - destruct (wl_fail um out d content) eqn:WF.
+    + destruct (eds_fail_form d content NDd NDc V WF) as [d1 [_ [_ [_ [_ E]]]]]. rewrite E. cbn. tauto.
+    + destruct (eds_ok_form d content NDd NDc V WF) as [d1 [_ [_ E]]]. rewrite E. cbn. split; [discriminate | intros [_ H]; discriminate].
+  - unfold eds, ensure_dir_state. fold (valid_input content). rewrite V. cbn. split; [discriminate | intros [H _]; discriminate].
+Qed.
+
+(* success: managed names are exactly the desired ones, unrelated names untouched, lists exact and sorted *)
+Theorem success_exact : forall d content, NoDup (names d) -> NoDup (names content) ->
+  let r := eds d content in
+  r_err r = false ->
+  (forall n, mt n = false -> lookup (r_dir r) n = lookup d n)
+  /\ (forall n, mt n = true ->
+        match lookup content n with
+        | None => lookup (r_dir r) n = None
+        | Some ds => exists v, lookup (r_dir r) n = Some v /\
+                     ((lookup d n = Some v /\ in_state out (Some v) ds = true) \/
+                      (v = written um ds /\ in_state out (lookup d n) ds = false))
+        end)
+  /\ (forall n, In n (r_changed r) <-> exists ds, lookup content n = Some ds /\ in_state out (lookup d n) ds = false)
+  /\ (forall n, In n (r_removed r) <-> mt n = true /\ lookup content n = None /\ lookup d n <> None)
+  /\ StronglySorted le (r_changed r) /\ NoDup (r_changed r)
+  /\ StronglySorted le (r_removed r) /\ NoDup (r_removed r).
+Proof.
+  intros d content NDd NDc r Herr. subst r.
+  destruct (valid_input content) eqn:V.
+  2:{ unfold eds, ensure_dir_state in Herr. fold (valid_input content) in Herr. rewrite V in Herr. discriminate. }
+  destruct (wl_fail um out d content) eqn:WF.
+  { destruct (eds_fail_form d content NDd NDc V WF) as [d1 [_ [_ [_ [_ E]]]]]. rewrite E in Herr. discriminate. }
+  destruct (eds_ok_form d content NDd NDc V WF) as [d1 [AW [ND1 E]]]. rewrite E in *. cbn [r_dir r_changed r_removed r_err] in *.
+  destruct (erase_loop_spec mt (names content) d1 ND1) as [S1 [S2 [S3 S4]]].
+  assert (NOERR : forall n ds, lookup content n = Some ds -> efs um out (lookup d n) ds <> FErr).
+  { intros n ds L Hf. unfold wl_fail in WF. apply (lookup_In _ content n ds NDc) in L.
+    assert (X : existsb (fun e => is_err (efs um out (lookup d (fst e)) (snd e))) content = true).
+    { apply existsb_exists. exists (n, ds). split; [assumption|]. cbn. rewrite Hf. reflexivity. }
+    congruence. }
+  assert (NOSTUCK : forall n v, mt n = true -> mem_name n (names content) = false -> lookup d1 n = Some v -> removable v = true).
+  { intros n v M K L. destruct (removable v) eqn:R; [reflexivity|]. exfalso.
+    assert (X : thd3 (erase_loop mt (names content) d1) = true) by (apply S3; exists n, v; tauto). congruence. }
+  assert (INC : forall n, lookup content n = None -> lookup d1 n = lookup d n).
+  { intros n L. rewrite AW. unfold after_write. rewrite L. reflexivity. }
+  split; [|split; [|split; [|split]]].
+  - intros n M. rewrite S1, M. cbn. apply INC. destruct (lookup content n) eqn:L; [|reflexivity].
+    apply lookup_Some_names in L. rewrite (valid_input_mt content n V L) in M. discriminate.
+  - intros n M. rewrite S1, M. cbn [andb]. destruct (lookup content n) as [ds|] eqn:L.
+    + assert (K : mem_name n (names content) = true) by (apply mem_name_In; eapply lookup_Some_names; eassumption).
+      rewrite K. cbn [negb]. rewrite AW. unfold after_write. rewrite L.
+      pose proof (efs_cases um out (lookup d n) ds) as EC. pose proof (NOERR n ds L) as NE.
+      destruct (efs um out (lookup d n) ds) eqn:EF; [| |congruence].
+      * destruct EC as [IS [v Hv]]. exists v. split; [assumption|]. left. rewrite Hv in IS. tauto.
+      * destruct EC as [W [IS _]]. exists n0. split; [reflexivity|]. right. tauto.
+    + assert (K : mem_name n (names content) = false) by (apply mem_name_false; apply lookup_None; assumption).
+      rewrite K. cbn [negb]. destruct (lookup d1 n) as [v|] eqn:L1; [|reflexivity].
+      rewrite (NOSTUCK n v M K L1). reflexivity.
+  - intro n. rewrite sort_In. unfold wrote_names. rewrite in_map_iff. split.
+    + intros [[k ds] [Ek I]]. cbn in Ek. subst k. apply filter_In in I. destruct I as [I W]. cbn in W.
+      exists ds. split; [apply lookup_In; assumption|].
+      pose proof (efs_cases um out (lookup d n) ds) as EC. destruct (efs um out (lookup d n) ds); try discriminate. tauto.
+    + intros [ds [L IS]]. exists (n, ds). split; [reflexivity|]. apply filter_In. split; [apply lookup_In; assumption|]. cbn.
+      pose proof (efs_cases um out (lookup d n) ds) as EC. pose proof (NOERR n ds L) as NE.
+      destruct (efs um out (lookup d n) ds); [|reflexivity|congruence]. destruct EC as [X _]. congruence.
+  - intro n. rewrite sort_In, S2. split.
+    + intros [M [K [v [L R]]]]. apply mem_name_false in K. apply lookup_None in K. rewrite (INC n K) in L.
+      repeat split; try assumption. congruence.
+    + intros [M [L NN]]. assert (K : mem_name n (names content) = false) by (apply mem_name_false; apply lookup_None; assumption).
+      repeat split; try assumption. destruct (lookup d n) as [v|] eqn:Ld; [|congruence]. exists v. rewrite (INC n L).
+      split; [assumption|]. apply (NOSTUCK n v M K). rewrite (INC n L). assumption.
+  - repeat split; try apply sort_sorted; apply sort_NoDup; [|assumption].
+    unfold wrote_names. apply NoDup_names_filter. assumption.
+Qed.
+
+(* with a umask that does not clear any desired permission bit, a freshly written entry is in the desired state *)
+Lemma written_in_state : forall ds, (match ds with DReg _ m _ => N.land (perm m) um = 0 | DSym _ _ => True | DBad _ => False end) ->
+  in_state out (Some (written um ds)) ds = true.
+Proof.
+  intros [c m f|t f|f] H; unfold in_state; cbn.
+  - unfold same_reg. rewrite beq_refl. replace (perm (N.ldiff (perm m) um)) with (perm m); [rewrite N.eqb_refl; reflexivity|].
+    unfold perm in *. apply N.bits_inj. intro i. rewrite !N.land_spec, N.ldiff_spec, N.land_spec.
+    assert (X : N.testbit (N.land (N.land m 511) um) i = false) by (rewrite H; apply N.bits_0).
+    rewrite !N.land_spec in X. destruct (N.testbit m i), (N.testbit 511 i), (N.testbit um i); cbn in *; congruence.
+  - rewrite beq_refl. reflexivity.
+  - contradiction.
+Qed.
+
+(* fail closed: a failure in the change phase (any entry, any of its State() calls, a directory in the way ...) leaves
+   nothing under the managed names except non-empty directories that were already there, reports nothing changed *)
+Theorem fail_closed : forall d content, NoDup (names d) -> NoDup (names content) ->
+  let r := eds d content in
+  r_wfail r = true ->
+  r_err r = true /\ r_changed r = []
+  /\ (forall n, lookup (r_dir r) n = if mt n then stuck (lookup d n) else lookup d n)
+  /\ (forall n, In n (r_removed r) -> mt n = true /\ lookup (r_dir r) n = None)
+  /\ (forall n, mt n = true -> lookup d n <> None -> lookup (r_dir r) n = None -> In n (r_removed r))
+  /\ StronglySorted le (r_removed r) /\ NoDup (r_removed r).
+Proof.
+  intros d content NDd NDc r WF. subst r. apply eds_wfail_iff in WF; try assumption. destruct WF as [V WF].
+  destruct (eds_fail_form d content NDd NDc V WF) as [d1 [OTH [ST [KEEP [ND1 E]]]]]. rewrite E. cbn [r_dir r_changed r_removed r_err].
+  destruct (erase_loop_spec mt [] d1 ND1) as [S1 [S2 [S3 S4]]].
+  assert (FIN : forall n, lookup (fst3 (erase_loop mt [] d1)) n = if mt n then stuck (lookup d n) else lookup d n).
+  { intro n. rewrite S1. cbn [mem_name existsb negb]. rewrite andb_true_r. destruct (mt n) eqn:M.
+    - rewrite <- ST. reflexivity.
+    - apply OTH. intro I. rewrite (valid_input_mt content n V I) in M. discriminate. }
+  repeat split; try reflexivity; try apply sort_sorted; try (apply sort_NoDup; assumption).
+  - exact FIN.
+  - apply (proj1 (sort_In _ _)) in H. apply (proj1 (S2 _)) in H. tauto.
+  - apply (proj1 (sort_In _ _)) in H. apply (proj1 (S2 _)) in H. destruct H as [M [_ [v [L R]]]]. rewrite FIN, M, <- ST, L. cbn. rewrite R. reflexivity.
+  - intros n M NN FN. apply sort_In. apply S2. split; [assumption|]. split; [reflexivity|].
+    specialize (KEEP n NN). destruct (lookup d1 n) as [v|] eqn:L; [|congruence]. exists v. split; [reflexivity|].
+    rewrite FIN, M, <- ST, L in FN. cbn in FN. destruct (removable v); [reflexivity | discriminate].
+Qed.
+
+(* invalid input (a name with a path component or not matching the globs) changes nothing *)
+Theorem bad_input_no_effect : forall d content, valid_input content = false ->
+  eds d content = mkResult d [] [] true false.
+Proof. intros d content V. unfold eds, ensure_dir_state. fold (valid_input content). rewrite V. reflexivity. Qed.
+
+(* the visiting order does not matter *)
+Lemma perm_lookup : forall (A : Type) (c c' : list (bytes * A)), Permutation c c' -> NoDup (names c) ->
+  forall n, lookup c n = lookup c' n.
+Proof.
+  intros A c c' P ND n. assert (ND' : NoDup (names c')) by (eapply Permutation_NoDup; [apply Permutation_map; exact P | assumption]).
+  destruct (lookup c n) as [v|] eqn:L.
+  - symmetry. apply lookup_In; [assumption|]. apply (Permutation_in _ P). apply lookup_In; assumption.
+  - symmetry. apply lookup_None. apply lookup_None in L. intro I. apply L.
+    apply (Permutation_in _ (Permutation_sym (Permutation_map fst P))). assumption.
+Qed.
+Lemma perm_forallb : forall (A : Type) (f : A -> bool) l l', Permutation l l' -> forallb f l = forallb f l'.
+Proof. induction 1; cbn; try congruence. rewrite !andb_assoc, (andb_comm (f y)). reflexivity. Qed.
+Lemma perm_existsb : forall (A : Type) (f : A -> bool) l l', Permutation l l' -> existsb f l = existsb f l'.
+Proof. induction 1; cbn; try congruence. rewrite !orb_assoc, (orb_comm (f y)). reflexivity. Qed.
+Lemma bool_iff_eq : forall a b : bool, (a = true <-> b = true) -> a = b.
+Proof. intros [|] [|] H; try reflexivity; [symmetry|]; apply H; reflexivity. Qed.
+
+Theorem order_independent : forall d content content', NoDup (names d) -> NoDup (names content) ->
+  Permutation content content' ->
+  let r := eds d content in let r' := eds d content' in
+  (forall n, lookup (r_dir r) n = lookup (r_dir r') n)
+  /\ r_changed r = r_changed r' /\ r_err r = r_err r' /\ r_wfail r = r_wfail r'
+  /\ (r_wfail r = false -> r_removed r = r_removed r').
+Proof.
+  intros d content content' NDd NDc P r r'. subst r r'.
+  assert (NDc' : NoDup (names content')) by (eapply Permutation_NoDup; [apply Permutation_map; exact P | assumption]).
+  assert (PV : valid_input content = valid_input content') by (apply perm_forallb; apply Permutation_map; assumption).
+  assert (PW : wl_fail um out d content = wl_fail um out d content') by (apply perm_existsb; assumption).
+  destruct (valid_input content) eqn:V.
+  2:{ rewrite !bad_input_no_effect by congruence. cbn. tauto. }
+  symmetry in PV. destruct (wl_fail um out d content) eqn:WF; symmetry in PW.
+  - pose proof (fail_closed d content NDd NDc) as F. pose proof (fail_closed d content' NDd NDc') as F'. cbn zeta in F, F'.
+    assert (W : r_wfail (eds d content) = true) by (apply eds_wfail_iff; auto).
+    assert (W' : r_wfail (eds d content') = true) by (apply eds_wfail_iff; auto).
+    destruct (F W) as [A1 [A2 [A3 _]]]. destruct (F' W') as [B1 [B2 [B3 _]]].
+    split; [intro n; rewrite A3, B3; reflexivity|]. rewrite A1, A2, B1, B2, W, W'. repeat split. discriminate.
+  - destruct (eds_ok_form d content NDd NDc V WF) as [d1 [AW [ND1 E]]].
+    destruct (eds_ok_form d content' NDd NDc' PV PW) as [d1' [AW' [ND1' E']]]. rewrite E, E'. cbn [r_dir r_changed r_removed r_err r_wfail].
+    destruct (erase_loop_spec mt (names content) d1 ND1) as [S1 [S2 [S3 S4]]].
+    destruct (erase_loop_spec mt (names content') d1' ND1') as [T1 [T2 [T3 T4]]].
+    assert (LK : forall n, lookup d1 n = lookup d1' n).
+    { intro n. rewrite AW, AW'. unfold after_write. rewrite (perm_lookup _ content content' P NDc n). reflexivity. }
+    assert (MK : forall n, mem_name n (names content) = mem_name n (names content')).
+    { intro n. apply perm_existsb. apply Permutation_map. assumption. }
+    split; [|split; [|split; [|split]]].
+    + intro n. rewrite S1, T1, LK, MK. reflexivity.
+    + apply sort_ext.
+      * unfold wrote_names. apply NoDup_names_filter. assumption.
+      * unfold wrote_names. apply NoDup_names_filter. assumption.
+      * intro x. unfold wrote_names. rewrite !in_map_iff. split; intros [e [Ee I]]; exists e; (split; [assumption|]);
+          apply filter_In in I; apply filter_In; (split; [|tauto]); destruct I as [I _].
+        -- apply (Permutation_in _ P). assumption.
+        -- apply (Permutation_in _ (Permutation_sym P)). assumption.
+    + apply bool_iff_eq. rewrite S3, T3. split; intros [n [v H]]; exists n, v; [rewrite <- LK, <- MK | rewrite LK, MK]; assumption.
+    + reflexivity.
+    + intros _. apply sort_ext; try assumption. intro x. rewrite S2, T2.
+      split; intros [M [K [v H]]]; (split; [assumption|]); (split; [congruence|]); exists v; [rewrite <- LK | rewrite LK]; assumption.
+Qed.
+End Main.
+
+(* corollaries in the form used by props/C23.v *)
+Lemma success_valid : forall mt um out d content, r_err (eds mt um out d content) = false -> valid_input mt content = true.
+Proof.
+  intros mt um out d content H. destruct (valid_input mt content) eqn:V; [reflexivity|].
+  rewrite bad_input_no_effect in H by assumption. discriminate.
+Qed.
+
+Theorem success_desired_state : forall mt um out d content, NoDup (names d) -> NoDup (names content) ->
+  umask_ok um content = true -> r_err (eds mt um out d content) = false ->
+  forall n ds, lookup content n = Some ds ->
+  exists v, lookup (r_dir (eds mt um out d content)) n = Some v /\ reads_as out v ds = true.
+Proof.
+  intros mt um out d content NDd NDc UM Herr n ds L.
+  pose proof (success_valid _ _ _ _ _ Herr) as V.
+  destruct (success_exact mt um out d content NDd NDc Herr) as [_ [B _]].
+  assert (M : mt n = true) by (eapply valid_input_mt; [eassumption | eapply lookup_Some_names; eassumption]).
+  specialize (B n M). rewrite L in B. destruct B as [v [Lv [[_ IS] | [W IS]]]]; exists v; (split; [assumption|]); [exact IS|].
+  subst v. unfold reads_as. apply written_in_state.
+  unfold umask_ok in UM. rewrite forallb_forall in UM. apply (lookup_In _ content n ds NDc) in L. specialize (UM (n, ds) L). cbn in UM.
+  destruct ds as [c m f|t f|f]; [apply N.eqb_eq; assumption | exact I |].
+  (* a DBad entry never succeeds *)
+  exfalso. destruct (wl_fail um out d content) eqn:WF.
+  - assert (X : r_wfail (eds mt um out d content) = true) by (apply eds_wfail_iff; auto).
+    destruct (fail_closed mt um out d content NDd NDc X) as [E _]. congruence.
+  - unfold wl_fail in WF. assert (X : existsb (fun e => is_err (efs um out (lookup d (fst e)) (snd e))) content = true).
+    { apply existsb_exists. exists (n, DBad f). split; [assumption|]. cbn. unfold efs. cbn. destruct (f =? 1); reflexivity. }
+    congruence.
+Qed.
+
+Theorem failure_points : forall mt um out d content, NoDup (names d) -> NoDup (names content) -> valid_input mt content = true ->
+  (r_wfail (eds mt um out d content) = true <->
+   exists n ds, In (n, ds) content /\ efs um out (lookup d n) ds = FErr).
+Proof.
+  intros mt um out d content NDd NDc V. rewrite eds_wfail_iff by assumption. unfold wl_fail. rewrite existsb_exists. split.
+  - intros [_ [[n ds] [I E]]]. exists n, ds. split; [assumption|]. cbn in E. destruct (efs um out (lookup d n) ds); try discriminate. reflexivity.
+  - intros [n [ds [I E]]]. split; [assumption|]. exists (n, ds). split; [assumption|]. cbn. rewrite E. reflexivity.
+Qed.
+
+(* what makes one entry fail: any of its three State() calls, an unsupported type, or a directory in the way *)
+Lemma efs_fails : forall um out cur ds,
+  (failat ds = 1 \/ failat ds = 2 \/ (exists f, ds = DBad f) \/ (exists e, cur = Some (Dir e))
+   \/ (failat ds = 3 /\ in_state out cur ds = false)) -> efs um out cur ds = FErr.
+Proof.
+  intros um out cur ds H. unfold efs, in_state in *.
+  destruct (failat ds =? 1) eqn:F1; [reflexivity|].
+  destruct ds as [c m f|t f|f]; [| |reflexivity]; cbn [failat] in *.
+  - destruct (f =? 2) eqn:F2; [reflexivity|].
+    destruct H as [H | [H | [[f' H] | [[e H] | [H1 H2]]]]]; try lia; try discriminate.
+    + subst cur. reflexivity.
+    + destruct (node_same out cur (DReg c m f)) as [[|]|]; try discriminate; try reflexivity.
+      subst f. reflexivity.
+  - destruct (f =? 2) eqn:F2; [reflexivity|].
+    destruct H as [H | [H | [[f' H] | [[e H] | [H1 H2]]]]]; try lia; try discriminate.
+    + subst cur. cbn. destruct (f =? 3); reflexivity.
+    + destruct (node_same out cur (DSym t f)) as [[|]|]; try discriminate; try reflexivity.
+      subst f. reflexivity.
 Qed.
